@@ -13,6 +13,8 @@ import (
 	transfertypes "github.com/cosmos/ibc-go/v8/modules/apps/transfer/types"
 	porttypes "github.com/cosmos/ibc-go/v8/modules/core/05-port/types"
 
+	"github.com/noble-assets/orbiter/v2/types/core"
+
 	"orbverif/altstack"
 	"orbverif/fw"
 	"orbverif/run"
@@ -291,7 +293,11 @@ func naturalFailures(e *fw.Env) {
 		"own-rule:action-without-controller":          actionsMemo([]string{"swap"}, nil, internal),
 		"own-rule:fee-then-action-without-controller": actionsMemo([]string{"fee", "swap"}, feeOne, internal),
 	}
+	swapWired := w.App.OrbiterKeeper.Executor().Router().HasRoute(core.ACTION_SWAP)
 	for _, c := range cases {
+		if swapWired && strings.Contains(c.name, "action-without-controller") {
+			continue // this application does wire a controller for ACTION_SWAP
+		}
 		ctx, _ := l.Base.CacheContext()
 		if c.setup != nil {
 			if err := c.setup(ctx); err != nil {
